@@ -25,12 +25,16 @@ var headerPool = sync.Pool{
 
 // AcquireHeaderField gets HeaderField from the pool.
 func AcquireHeaderField() *HeaderField {
-	return headerPool.Get().(*HeaderField)
+	hf := headerPool.Get().(*HeaderField)
+	verifAcquire("headerField", hf)
+
+	return hf
 }
 
 // ReleaseHeaderField puts HeaderField to the pool.
 func ReleaseHeaderField(hf *HeaderField) {
 	hf.Reset()
+	verifRelease("headerField", hf)
 	headerPool.Put(hf)
 }
 
